@@ -335,6 +335,21 @@ func (doc *Document) AddFamilyWithHusbandAndWife(pointer string, husband, wife *
 func (doc *Document) DeleteNode(node Node) (didDelete bool) {
 	doc.nodes, didDelete = doc.nodes.deleteNode(node)
 
+	// The pointer index, the list of families and the relations cached by the
+	// individuals and families are all derived from the root nodes.
+	if didDelete {
+		doc.buildPointerCache()
+		doc.families = nil
+
+		for _, individual := range doc.Individuals() {
+			individual.resetCache()
+		}
+
+		for _, family := range doc.Families() {
+			family.resetCache()
+		}
+	}
+
 	return
 }
 
